@@ -39,7 +39,7 @@ type opts struct {
 
 type flagSpec struct {
 	name, family, arg string
-	set                func(o *opts)
+	set               func(o *opts)
 }
 
 var flags = []flagSpec{
